@@ -9,7 +9,7 @@ Line protocol of the `multi` engine (the leading token `multi` is stripped by `D
   maxmulti <n> <t>             BrotliEncoderMaxCompressedSizeMulti        → `<size>`
   dict <size> <lgwin> <q>      set_custom_dictionary…: used? dropped kept → `<0|1> <dropped> <kept>`
   part <i> <t> <n> <call>…     compress_part with recorded compress_stream answers
-        call = `<0|1>:<consumed>:<hexproduced>` | `P` (the call panicked)
+        call = `<result 0|1>:<is_finished 0|1>:<consumed>:<hexproduced>` | `P` (the call panicked)
                                → `ok:<hex>` | `err` | `panic` | `spin`
   run <sp> <t> <cap> <job>…    CompressMulti, sp = threads | pool | inline, one job token per index
         job = `ok:<hex>` | `err` | `panic` | `spin`
@@ -28,7 +28,7 @@ def rangeTok : Res (Nat × Nat) → String
 def parseCall (tok : String) : Option EncAns :=
   match tok.splitOn ":" with
   | ["P"] => some .panic
-  | [r, c, hex] => some (.ans ⟨r = "1", natArg c, hexToBytes hex⟩)
+  | [r, f, c, hex] => some (.ans ⟨r = "1", f = "1", natArg c, hexToBytes hex⟩)
   | _ => none
 
 def parseJob (tok : String) : Option JobRes :=
